@@ -50,6 +50,7 @@ class World:
         self.lib_calls: List[Tuple[str, Dict[str, Any], Any]] = []
         self.argv: Dict[str, Any] = {}
         self.handles: List[Any] = []
+        self.globals: Dict[str, Any] = {}
 
     def shutdown(self) -> None:
         """Interpreter exit: handles the program left open are flushed and closed."""
@@ -68,6 +69,8 @@ class FileStub:
     def __init__(self, world: World, path: Any, mode: str = "r", temporary: bool = False):
         if isinstance(path, FileStub):
             raise TypeError("expected str, bytes or os.PathLike object, not TextIOWrapper")
+        if isinstance(path, PathStub):
+            path = path.path
         if not isinstance(path, str):
             raise TypeError(f"expected str, bytes or os.PathLike object, not {type(path).__name__}")
         if not isinstance(mode, str) or not set(mode) <= set("rwxabt+") or sum(c in mode for c in "rwxa") != 1:
@@ -447,11 +450,16 @@ class ContainerStub:
         return False
 
 
-def serialise(containers) -> str:
+def serialise(containers, lastInOrder=None, selectOrder=None) -> str:
     doc = []
     for c in containers:
         cats = []
-        for nm in c.getObjNameList():
+        names = list(c.getObjNameList())
+        if lastInOrder:
+            names = [n for n in names if n not in lastInOrder] + [n for n in names if n in lastInOrder]
+        elif selectOrder:
+            names = [n for n in selectOrder if c.exists(n)]
+        for nm in names:
             o = c.getObj(nm)
             cats.append([nm, list(o.getAttributeList()), [list(r) for r in o.getRowList()]])
         doc.append([c.getName(), cats])
@@ -477,25 +485,150 @@ class AdapterStub:
     def __init__(self, world: World):
         self.world = world
 
-    def readFile(self, inputFilePath):
+    def readFile(self, inputFilePath, enforceAscii=False, selectList=None, excludeFlag=False, logFilePath=None, outDirPath=None, cleanUp=True, fmt="mmcif", timeout=None):
         if not isinstance(inputFilePath, str):
             raise TypeError("readFile: path expected")
+        if fmt != "mmcif":
+            raise NotConst("readFile(fmt=...) is not modelled")
         self.world.events.append(("parse", inputFilePath))
+        if not self.world.files.get(inputFilePath):
+            self.world.events.append(("parse-empty", inputFilePath, inputFilePath in self.world.files))
         doc = parse(self.world.files.get(inputFilePath))
         out = []
         for bname, cats in doc or []:
             c = ContainerStub(bname)
             for cname, attrs, rows in cats:
+                if selectList and ((cname in selectList) == bool(excludeFlag)):
+                    continue
                 c.append(CategoryStub(cname, attrs, rows))
             out.append(c)
         return out
 
-    def writeFile(self, outputFilePath, containerList):
+    def writeFile(self, outputFilePath, containerList, maxLineLength=900, enforceAscii=True, lastInOrder=None, selectOrder=None, columnAlignFlag=True, useStopTokens=False, formattingStep=None, fmt="mmcif"):
         if not isinstance(outputFilePath, str):
             raise TypeError("writeFile: path expected")
-        self.world.files[outputFilePath] = serialise(containerList)
+        if fmt != "mmcif":
+            raise NotConst("writeFile(fmt=...) is not modelled")
+        self.world.files[outputFilePath] = serialise(containerList, lastInOrder, selectOrder)
         self.world.events.append(("serialise", outputFilePath))
         return True
+
+
+class PathStub:
+    """pathlib.Path over the stub file system (the operations a CLI uses to read and write a text file)."""
+
+    _folder_stub = True
+
+    def __init__(self, world: World, path):
+        if isinstance(path, PathStub):
+            path = path.path
+        if not isinstance(path, str):
+            raise TypeError(f"expected str, bytes or os.PathLike object, not {type(path).__name__}")
+        self.world, self.path, self.name = world, path, path.split("/")[-1]
+
+    def read_text(self, encoding=None, errors=None):
+        with_ = FileStub(self.world, self.path, "r")
+        try:
+            return with_.read()
+        finally:
+            with_.close()
+
+    def write_text(self, data, encoding=None, errors=None, newline=None):
+        if not isinstance(data, str):
+            raise TypeError(f"data must be str, not {type(data).__name__}")
+        h = FileStub(self.world, self.path, "w")
+        try:
+            return h.write(data)
+        finally:
+            h.close()
+
+    def open(self, mode="r", buffering=-1, encoding=None, errors=None, newline=None):
+        return FileStub(self.world, self.path, mode)
+
+    def exists(self):
+        return self.path in self.world.files
+
+    def is_file(self):
+        return self.path in self.world.files
+
+    def unlink(self, missing_ok=False):
+        if self.path not in self.world.files and not missing_ok:
+            raise FileNotFoundError(self.path)
+        self.world.files.pop(self.path, None)
+
+    def __str__(self):
+        return self.path
+
+
+def _fspath(p) -> str:
+    if isinstance(p, PathStub):
+        return p.path
+    if not isinstance(p, str):
+        raise TypeError(f"expected str, bytes or os.PathLike object, not {type(p).__name__}")
+    return p
+
+
+class OsPathStub:
+    _folder_stub = True
+
+    def __init__(self, world: World):
+        self.world = world
+
+    def exists(self, p):
+        return _fspath(p) in self.world.files
+
+    def isfile(self, p):
+        return _fspath(p) in self.world.files
+
+
+class OsStub:
+    _folder_stub = True
+
+    def __init__(self, world: World):
+        self.world = world
+        self.path = OsPathStub(world)
+
+    def replace(self, src, dst):
+        src, dst = _fspath(src), _fspath(dst)
+        if src not in self.world.files:
+            raise FileNotFoundError(src)
+        self.world.files[dst] = self.world.files.pop(src)
+        self.world.events.append(("rename", src, dst))
+
+    def rename(self, src, dst):
+        self.replace(src, dst)
+
+    def remove(self, p):
+        p = _fspath(p)
+        if p not in self.world.files:
+            raise FileNotFoundError(p)
+        del self.world.files[p]
+
+    def unlink(self, p):
+        self.remove(p)
+
+
+class ShutilStub:
+    _folder_stub = True
+
+    def __init__(self, world: World):
+        self.world = world
+
+    def copyfile(self, src, dst):
+        src, dst = _fspath(src), _fspath(dst)
+        if src not in self.world.files:
+            raise FileNotFoundError(src)
+        if src == dst:
+            raise OSError(f"{src!r} and {dst!r} are the same file")
+        self.world.files[dst] = self.world.files[src]
+        return dst
+
+    def copy(self, src, dst):
+        return self.copyfile(src, dst)
+
+    def move(self, src, dst):
+        OsStub(self.world).replace(src, dst)
+        return dst
 
 
 class NamespaceStub:
@@ -694,6 +827,8 @@ class XFolder(Folder):
             if f.attr.startswith("_") or m is None or not callable(m):
                 raise NotConst(f"`{type(recv).__name__}.{f.attr}()` is not modelled")
             return self._invoke(m, args, kw, f"{type(recv).__name__}.{f.attr}")
+        if recv is copy and f.attr in ("copy", "deepcopy"):
+            return getattr(copy, f.attr)(*args, **kw)
         if type(recv) in _PLAIN and not f.attr.startswith("_"):
             r = getattr(recv, f.attr)(*args, **kw)  # AttributeError / TypeError are the program's own
             if isinstance(recv, dict) and f.attr in ("keys", "values", "items"):
@@ -731,7 +866,7 @@ class Runtime:
     def _import(self, src: str, orig: Optional[str]) -> Any:
         w = self.world
         if orig is None:
-            return {"tempfile": TempfileStub(w), "argparse": ArgparseStub(w), "sys": SysStub(w)}.get(src)
+            return {"tempfile": TempfileStub(w), "argparse": ArgparseStub(w), "sys": SysStub(w), "os": OsStub(w), "shutil": ShutilStub(w), "copy": copy}.get(src)
         if src == "tempfile" and orig == "NamedTemporaryFile":
             return TempfileStub(w).NamedTemporaryFile
         if src == "argparse" and orig == "ArgumentParser":
@@ -746,6 +881,14 @@ class Runtime:
             return ContainerStub
         if src == "copy" and orig in ("deepcopy", "copy"):
             return getattr(copy, orig)
+        if src == "pathlib" and orig == "Path":
+            return _stubfn(lambda path: PathStub(w, path))
+        if src == "os" and orig in ("replace", "rename", "remove", "unlink"):
+            return getattr(OsStub(w), orig)
+        if src == "os.path" and orig in ("exists", "isfile"):
+            return getattr(OsPathStub(w), orig)
+        if src == "shutil" and orig in ("copyfile", "copy", "move"):
+            return getattr(ShutilStub(w), orig)
         return None
 
     def _module_env(self) -> Dict[str, Any]:
@@ -763,6 +906,19 @@ class Runtime:
                         env[a.asname or a.name] = v
         for name, fn in self.funcs.items():
             env[name] = self.overrides[name] if name in self.overrides else self.callable_of(fn)
+        # module-level mutable containers are state of the process: one object per world, shared by every call made in it
+        for st in self.tree.body:
+            tgt = st.targets[0] if isinstance(st, ast.Assign) and len(st.targets) == 1 else (st.target if isinstance(st, ast.AnnAssign) and st.value is not None else None)
+            if isinstance(tgt, ast.Name):
+                if tgt.id not in self.world.globals:
+                    try:
+                        v = XFolder(self.repo, M, env).fold(st.value)
+                    except Exception:
+                        continue
+                    if type(v) not in (list, dict, set):
+                        continue
+                    self.world.globals[tgt.id] = v
+                env[tgt.id] = self.world.globals[tgt.id]
         return env
 
     def callable_of(self, fn: ast.FunctionDef, closure: Optional[Dict[str, Any]] = None) -> Callable:
@@ -867,11 +1023,15 @@ class FuncEval(BlockEval):
     def _assign(self, t: ast.AST, v: Any) -> None:
         if isinstance(t, ast.Subscript):
             base = self.fold(t.value)
-            if isinstance(t.slice, ast.Slice):
-                raise Unknown("slice assignment")
             if type(base) not in (list, dict) and not isinstance(base, CategoryStub):
                 raise Unknown(f"store into `{norm_(t.value)}`")
-            base[self.fold(t.slice)] = v
+            if isinstance(t.slice, ast.Slice):
+                if type(base) is not list:
+                    raise Unknown("slice assignment")
+                lo, hi, step = (self.fold(x) if x is not None else None for x in (t.slice.lower, t.slice.upper, t.slice.step))
+                base[lo:hi:step] = list(v)
+            else:
+                base[self.fold(t.slice)] = v
         elif isinstance(t, ast.Attribute):
             base = self.fold(t.value)
             if isinstance(base, NamespaceStub):
@@ -996,6 +1156,17 @@ class FuncEval(BlockEval):
                 if v is None:
                     raise Unknown(f"import of {a.name}")
                 self.env[(a.asname or a.name).split(".")[0]] = v
+        elif isinstance(st, ast.Delete):
+            for t in st.targets:
+                if isinstance(t, ast.Subscript) and not isinstance(t.slice, ast.Slice):
+                    base = self.fold(t.value)
+                    if type(base) not in (list, dict):
+                        raise Unknown(f"del `{norm_(t)}`")
+                    del base[self.fold(t.slice)]
+                elif isinstance(t, ast.Name) and t.id in self.env:
+                    del self.env[t.id]
+                else:
+                    raise Unknown(f"del `{norm_(t)}`")
         elif isinstance(st, (ast.Global, ast.Nonlocal)):
             raise Unknown("global / nonlocal state")
         else:
@@ -1026,7 +1197,13 @@ def evaluate(repo, tree: ast.Module, fname: str, args: Sequence[Any], kw: Dict[s
     except RecursionError:
         return Outcome("unknown", "recursion", world)
     except Exception as ex:  # raised by the evaluated program (an interpreted builtin or a stub that models an error)
-        return Outcome("raise", f"{type(ex).__name__}: {ex}"[:160], world)
+        return Outcome("raise", _scrub(f"{type(ex).__name__}: {ex}")[:160], world)
+
+
+def _scrub(s: str) -> str:
+    import re
+
+    return re.sub(r" at 0x[0-9a-fA-F]+", "", s)
 
 
 def uncovered(cov: set, fns: Sequence[ast.FunctionDef]) -> List[ast.stmt]:
@@ -1190,7 +1367,7 @@ def check_copy(chk, fi) -> Optional[str]:
             why = why or f"{tag}: {o.value}"
             continue
         want = want_copy(d, *a)
-        bad = _judge_doc(o, want, a[0], a[1], a[2])
+        bad = _judge_doc(o, want, a[0], a[1], a[2], t)
         chk.expect(bad is None, "edit-eval", fi.where, f"copy {a[1]} -> {a[2]} ({tag}): every row's target equals its source, nothing else changes, the written document contains the edit", f"copy {a[1]} -> {a[2]} in `{a[0]}` ({tag}): {bad}", K(fi, f"edit-eval:{tag}"), found=_short(o.value))
     # -- a second call in the same process starts from the text again ----------------------------------------------------------------
     w = World()
@@ -1216,9 +1393,27 @@ def _repeat(chk, fi, second: Outcome, fresh: Outcome, what: str, cat, src, dst) 
     chk.expect(same, "repeat-eval", fi.where, f"a call gives the same result as the second call in a process as it gives as the first ({what}): no state survives a call", f"two calls with the same text ({what}): the second call does not start from the text again - compared with the same call made first, {how}; state of the first call (a cache, a module-level container) leaks into the second", K(fi, "repeat-eval"))
 
 
-def _judge_doc(o: Outcome, want, cat, src, dst) -> Optional[str]:
+def _unchanged(o: Outcome, text: str) -> Optional[str]:
+    """The function hands its input back although an edit is due: say so, and why when the events tell."""
+    v = o.value[0] if isinstance(o.value, tuple) and o.value else o.value
+    if o.kind != "return" or v != text:
+        return None
+    ev = [e[0] for e in o.world.events] if o.world is not None else []
+    if "parse-empty" not in ev and "serialise" in ev:
+        return None  # the document was parsed, edited and written again: the difference is in the edit itself
+    why = ""
+    for e in o.world.events if o.world is not None else []:
+        if e[0] == "parse-empty":
+            why = " - the adapter parsed an empty temporary file (the text was written but not flushed to the path before it was read)" if e[2] else " - the adapter was pointed at a temporary file that no longer exists (it is deleted when its `with` block ends)"
+            break
+    return "the input text is returned unchanged although the category and the item exist: the edit is not made" + why
+
+
+def _judge_doc(o: Outcome, want, cat, src, dst, text: Optional[str] = None) -> Optional[str]:
     if o.kind != "return":
         return f"the call raises {o.value}"
+    if text is not None and parse(text) != want and _unchanged(o, text):
+        return _unchanged(o, text)
     got = parse(o.value)
     if got is None:
         return f"the result {_short(o.value)} is not the serialised document"
@@ -1226,7 +1421,9 @@ def _judge_doc(o: Outcome, want, cat, src, dst) -> Optional[str]:
 
 
 def _short(v: Any) -> str:
-    s = repr(v)
+    import re
+
+    s = re.sub(r" at 0x[0-9a-fA-F]+", "", re.sub(r"<checks\.c20e\.(\w+) object at 0x[0-9a-fA-F]+>", r"<\1>", repr(v)))
     return s if len(s) <= 90 else s[:87] + "..."
 
 
@@ -1275,7 +1472,7 @@ def check_replace(chk, fi) -> Optional[str]:
             why = why or f"{tag}: {o.value}"
             continue
         want_doc, want_map = want_replace(d, *a)
-        bad = _judge_replace(o, want_doc, want_map, a[0], a[1])
+        bad = _judge_replace(o, want_doc, want_map, a[0], a[1], t)
         chk.expect(bad is None, "edit-eval", fi.where, f"replace `{a[1]}` with {a[2]!r} ({tag}): the item is the image of the first-seen mapping {want_map}, which is returned; nothing else changes", f"replace `{a[1]}` of `{a[0]}` with {a[2]!r} ({tag}): {bad}", K(fi, f"edit-eval:{tag}"), found=_short(o.value))
     # the default alphabet: as many distinct symbols as the signature promises, no blank
     try:
@@ -1320,9 +1517,11 @@ def check_replace(chk, fi) -> Optional[str]:
     return why
 
 
-def _judge_replace(o: Outcome, want_doc, want_map, cat, col) -> Optional[str]:
+def _judge_replace(o: Outcome, want_doc, want_map, cat, col, text: Optional[str] = None) -> Optional[str]:
     if o.kind != "return":
         return f"the call raises {o.value}"
+    if text is not None and parse(text) != want_doc and _unchanged(o, text):
+        return _unchanged(o, text)
     if not (isinstance(o.value, tuple) and len(o.value) == 2):
         return f"the result {_short(o.value)} is not (text, mapping)"
     got = parse(o.value[0])
@@ -1379,36 +1578,41 @@ def _lib_stub(world: World, rt_holder: list, name: str, fn: ast.FunctionDef, tup
 
 
 def _expected_texts(tree, fname: str, content: str, opts: Dict[str, Any], repo) -> List[str]:
-    """Texts the stub library returns for this content and these options (category: as given; when not given, None or the library default)."""
+    """Texts the stub library returns for this content and these options: every option that was given is passed on as
+    given; an option that was not given reaches the library either as None (argparse's default) or not at all (the
+    library's own default applies)."""
     fn = {s.name: s for s in tree.body if isinstance(s, ast.FunctionDef)}[fname]
     rt = Runtime(repo, tree, World())
     params = [a.arg for a in fn.args.args]
-    cats = [opts["--category"]] if "--category" in opts else [None, "<default>"]
-    out = []
-    for c in cats:
-        if fname == "copy_from_to":
-            pos = [content, c, opts["--copy-from"], opts["--copy-to"]]
-        else:
-            pos = [content, c, opts["--replace"], opts["--values"]]
-        if c == "<default>":
-            kw = dict(zip([params[0]] + params[2:], [pos[0]] + pos[2:]))
-            b = rt.bind(fn, [], kw, rt.module_env)
-        else:
-            b = rt.bind(fn, pos, {}, rt.module_env)
-        out.append(_tag(fname, fn, b)[1])
+    if len(params) < 4:
+        raise Unknown(f"signature of {fname}")
+    names = ["--category"] + (["--copy-from", "--copy-to"] if fname == "copy_from_to" else ["--replace", "--values"])
+    out: List[str] = []
+    missing = [n for n in names if n not in opts]
+    for as_none in ([False, True] if missing else [False]):
+        kw = {params[0]: content}
+        for p, n in zip(params[1:4], names):
+            if n in opts:
+                kw[p] = opts[n]
+            elif as_none:
+                kw[p] = None
+        t = _tag(fname, fn, rt.bind(fn, [], kw, rt.module_env))[1]
+        if t not in out:
+            out.append(t)
     return out
 
 
+# (label, options given, acceptable results: library functions whose text may be written; None = the output is not touched)
 CLI_CASES = [
     ("copy", {"--category": "cat", "--copy-from": "a", "--copy-to": "b"}, ["copy_from_to"]),
     ("copy, no --category", {"--copy-from": "a", "--copy-to": "b"}, ["copy_from_to"]),
     ("replace", {"--category": "cat", "--replace": "a", "--values": "XYZ"}, ["replace_value"]),
     ("replace, no --category", {"--replace": "a", "--values": "XYZ"}, ["replace_value"]),
-    ("no action", {"--category": "cat"}, []),
-    ("only --copy-from", {"--category": "cat", "--copy-from": "a"}, []),
-    ("only --copy-to", {"--category": "cat", "--copy-to": "b"}, []),
-    ("only --replace", {"--category": "cat", "--replace": "a"}, [None, "replace_value-default-values"]),
-    ("only --values", {"--category": "cat", "--values": "XYZ"}, []),
+    ("no action", {"--category": "cat"}, [None]),
+    ("only --copy-from", {"--category": "cat", "--copy-from": "a"}, [None, "copy_from_to"]),
+    ("only --copy-to", {"--category": "cat", "--copy-to": "b"}, [None, "copy_from_to"]),
+    ("only --replace", {"--category": "cat", "--replace": "a"}, [None, "replace_value"]),
+    ("only --values", {"--category": "cat", "--values": "XYZ"}, [None, "replace_value"]),
     ("copy and replace together", {"--category": "cat", "--copy-from": "a", "--copy-to": "b", "--replace": "a", "--values": "XYZ"}, ["copy_from_to", "replace_value", None]),
 ]
 
@@ -1446,7 +1650,7 @@ def check_cli(chk, fi) -> Optional[str]:
             except RecursionError:
                 o = Outcome("unknown", "recursion", w)
             except Exception as ex:
-                o = Outcome("raise", f"{type(ex).__name__}: {ex}"[:160], w)
+                o = Outcome("raise", _scrub(f"{type(ex).__name__}: {ex}")[:160], w)
             if o.kind == "unknown":
                 why = why or f"{tag}: {o.value}"
                 continue
@@ -1460,17 +1664,11 @@ def check_cli(chk, fi) -> Optional[str]:
                 for a in accept:
                     if a is None:
                         want.append(None)
-                    elif a == "replace_value-default-values":
-                        fnr = funcs["replace_value"]
-                        b = Runtime(repo, tree, World()).bind(fnr, [content, opts.get("--category"), opts["--replace"]], {}, {})
-                        want.append(_tag("replace_value", fnr, b)[1])
                     else:
                         want.extend(_expected_texts(tree, a, content, opts, repo))
             except (Unknown, TypeError) as ex:
                 why = why or f"{tag}: signature of the library function: {ex}"
                 continue
-            if not accept:
-                want = [None]
             got = final.get(outp)
             untouched = got == before.get(outp)
             okay = (got in [x for x in want if x is not None] and o.kind == "return") or (None in want and untouched)
